@@ -216,7 +216,12 @@ def TEXT(value, format_text):
     
     if isinstance(value, (int, float)):
         prefix = re.match(r'^[^\d#0,]*', format_text).group()
-        suffix = re.search(r'[^\d#0,%]*$', format_text).group()
+        # the trailing run of characters that are no digit places - found from the end: an unanchored
+        # search for [^\d#0,%]*$ tries every position and takes time quadratic in a long format
+        end = len(format_text)
+        while end > 0 and not (format_text[end - 1].isdecimal() or format_text[end - 1] in '#0,%'):
+            end -= 1
+        suffix = format_text[end:]
         
         numeric_format = format_text[len(prefix):-len(suffix) if suffix else None]
 
